@@ -3,7 +3,7 @@ import Rivaas.Spec.OpenAPI
 /-
 Driver for C07. Case line:
 
-  <id> <30|31> <strict> <nenv> ENV* <nops> OP*  =>  OFF ON <metaValid> <refsResolve> <stable> <validatorAgrees>
+  <id> <30|31> <strict> <nenv> ENV* <nops> OP*  =>  OFF ON <metaValid> <refsResolve> <stable> <validatorAgrees> <served>
 
   ENV := <tid> S <name> <pkgPath> <n> FIELD*  |  <tid> A TY
   FIELD := F <name> <exported> <json> <validate> <query> <path> <header> <cookie> TY | E <tid>
@@ -20,7 +20,8 @@ is a parameter of the model), `refsResolve` the harness' own JSON-pointer resolu
 in the raw JSON, `stable` byte equality of repeated generations, `validatorAgrees` whether the
 repository's own `validate.Validator` gives the same verdicts as the jsonschema library on the
 document and on a damaged variant of it (part of MI: the validator the model takes as a parameter is
-the one the code is wired to).
+the one the code is wired to), `served` (cases flagged for it; otherwise 1): two app instances serve
+byte-identical specifications with the same ETag = quoted SHA-256 of the body, and answer 304 to it.
 
 The produced JSON is read *strictly* into `Doc Schema`: a member the grammar does not know makes the
 case `unparsed` (MI=0), so nothing in the document is ignored silently.
@@ -436,9 +437,9 @@ def step (line : String) : String :=
       | .ok (off, _) =>
         -- ON and the three flags are the last tokens of the line
         let rev := obs.reverse
-        let flags := (rev.take 4).reverse
-        let t4 := (rev.drop 4).head?.getD ""
-        let t5 := (rev.drop 5).head?.getD ""
+        let flags := (rev.take 5).reverse
+        let t4 := (rev.drop 5).head?.getD ""
+        let t5 := (rev.drop 6).head?.getD ""
         let on : Res :=
           if t5 == "E" then .err t4
           else match t4 with
@@ -448,8 +449,9 @@ def step (line : String) : String :=
             | "X" => .other
             | _ => .unparsed "on"
         match flags with
-        | [mv, rr, stb, vag] =>
+        | [mv, rr, stb, vag, srv] =>
           let validatorAgrees := vag == "1"
+          let served := srv == "1"
           let metaValid := mv == "1"
           let refsResolve := rr == "1"
           let stable := stb == "1"
@@ -479,7 +481,7 @@ def step (line : String) : String :=
             | .panic => false                       -- neither an error nor a document
             | .err _ => (match on with | .panic => false | _ => true)
             | .doc d =>
-              docOK x.v x.ops d && metaValid && refsResolve && stable &&
+              docOK x.v x.ops d && metaValid && refsResolve && stable && served &&
               (match on with | .same => true | _ => false)   -- validation must not reject (or change) a valid document
             | .unparsed _ => true                   -- correspondence broken, not (yet) a property violation
             | _ => false
